@@ -148,7 +148,7 @@ def set_at(val, path, new):
         if isinstance(val, Iter):
             d = {"rem": val.remaining, "start": val.start, "end": val.end, "ielem": val.elem}
             d[step] = set_at(d[step] if d[step] is not None else Top(), rest, new)
-            return Iter(val.ikind, d["rem"], d["ielem"], d["start"], d["end"], val.extra, val.cells, val.pos)
+            return Iter(val.ikind, d["rem"], d["ielem"], d["start"], d["end"], val.extra, val.cells, val.pos, val.seen, val.last)
         return val
     return val
 
@@ -820,7 +820,38 @@ def _lost_facts(s, out, limit=60):
     return facts[:limit * 2]
 
 
+def _in_empty_container(s, loc):
+    """does the location lie inside the summary element of a container that is certainly empty in s?  Facts about such an element hold vacuously"""
+    cell, path = loc
+    if "elem" not in path:
+        return False
+    root = s.cells.get(cell)
+    if root is None:
+        return False
+    for i, step in enumerate(path):
+        if step == "elem":
+            arr = get_at(root, path[:i])
+            if isinstance(arr, Arr) and isinstance(arr.len, Int) and arr.len.hi == 0 and not arr.cells:
+                return True
+    return False
+
+
+def _maybe_empty_container(s, loc):
+    cell, path = loc
+    root = s.cells.get(cell)
+    if root is None:
+        return True
+    for i, step in enumerate(path):
+        if step == "elem":
+            arr = get_at(root, path[:i])
+            if not isinstance(arr, Arr) or not isinstance(arr.len, Int) or arr.len.lo == 0:
+                return True
+    return False
+
+
 def _state_entails_fact(s, f):
+    if f[0] in ("iv", "var") and _in_empty_container(s, f[1]):
+        return True
     if f[0] == "iv":
         leaf = s.leaf(f[1])
         return leaf is not None and f[2] <= leaf.lo and leaf.hi <= f[3]
@@ -866,6 +897,8 @@ def join_guards(a, b, out, grow=True):
 
     def feasible(s, key):
         var, value = key
+        if "elem" in var[1] and _maybe_empty_container(s, var):
+            return True         # a statement about every element of a container holds vacuously of an empty one
         v = get_at(s.cells.get(var[0], Top()), var[1])
         if isinstance(value, tuple):
             if isinstance(v, Enum):
